@@ -8,5 +8,6 @@ CONSTANTS Kinds <- MarkerKinds
   EOF_IS_BROKEN = TRUE
   TRIM_TWICE = FALSE
   USED_HOISTED = TRUE
+  SHARED_SEEN = FALSE
 INVARIANTS TypeOK PropertyHolds
 CHECK_DEADLOCK FALSE
